@@ -52,7 +52,7 @@ def run(ctx):
     rel3 = list(gen.total_relations(3))
     namings = [{'p': 'p', 'q': 'q'}, {'p': 'zeta_%d' % (ctx.seed % 7), 'q': 'Alpha9'}, {'p': 'p17', 'q': 'p3'}]
     if not thorough:
-        rel3 = rng.sample(rel3, 200)
+        rel3 = rng.sample(rel3, 110)
 
     def ren(t, m):
         if t[0] == 'ap':
@@ -66,7 +66,7 @@ def run(ctx):
                               [('A', ren(g, m)) for g in core], {}))
     driver.run_cases(ctx, 'ltl-scc-shapes', 'vf.rtc.mc_rtc', 'check_mc_case', scc_cases, chunk=4,
                      rule='%s total relations on 3 states x labellings x 9 core liveness/safety path formulas, atoms renamed '
-                          '(tableau/SCC iteration order depends on hashing of names)' % ('all 343' if thorough else '200 sampled'))
+                          '(tableau/SCC iteration order depends on hashing of names)' % ('all 343' if thorough else '110 sampled'))
     rk = []
     for _ in range(600 if thorough else 60):
         S, R, L = gen.random_kripke_data(rng, 5)
